@@ -933,7 +933,6 @@ coap_oscore_decrypt_pdu(coap_session_t *session,
   }
 
   if (coap_request) {
-    uint64_t incoming_seq;
     /*
      * 8.2 Step 2
      * Decompress COSE object
@@ -1048,10 +1047,6 @@ coap_oscore_decrypt_pdu(coap_session_t *session,
                                0);
       goto error_no_ack;
     }
-
-    incoming_seq =
-        coap_decode_var_bytes8(cose->partial_iv.s, cose->partial_iv.length);
-    rcp_ctx->last_seq = incoming_seq;
   } else { /* !coap_request */
     /*
      * 8.4 Step 2
